@@ -299,6 +299,43 @@ theorem C07_gen_add_rule_plumbing :
     addRuleStores.length = 8 ∧ (∀ p, p ∈ addRuleParams → p = "position" ∨ p ∈ addRuleStores.map (·.1)) ∧
     addRuleParams.length = 9 := by decide
 
+theorem pyIndex_nonneg (len : Nat) (i : Int) (h : 0 ≤ i) :
+    pyIndex len i = if i.toNat < len then some i.toNat else none := by
+  simp [pyIndex, h]
+
+/-- **The source of `add_rule`, translated, is the model** — for every list object (whatever `max_acl_rules` has been
+assigned), every rule and every position: same outcome (done / `ValueError` / `IndexError`), same object afterwards (on an
+error: untouched), the stored rule carrying each parameter under its own field and a zero counter.  A changed guard, a
+conditional or crossed store, a store at another index, or an early return breaks this theorem or the extractor. -/
+theorem C07_gen_add_rule (a : AclObj) (r : Rule) (pos : Int) :
+    Primaite.Gen.AclState.addRule a r pos = a.addRule r pos := by
+  cases r
+  unfold Primaite.Gen.AclState.addRule AclObj.addRule AclObj.inBound Acl.addRule
+  by_cases h0 : 0 ≤ pos <;> by_cases h1 : pos < a.maxRules - 1
+  · by_cases h2 : pos.toNat < a.core.rules.length <;> simp [h0, h1, h2, pyIndex_nonneg]
+  · simp [h0, h1]
+  · simp [h0, h1]
+  · simp [h0, h1]
+
+/-- **…and so is `remove_rule`.** -/
+theorem C07_gen_remove_rule (a : AclObj) (pos : Int) :
+    Primaite.Gen.AclState.removeRule a pos = a.removeRule pos := by
+  unfold Primaite.Gen.AclState.removeRule AclObj.removeRule AclObj.inBound Acl.removeRule
+  by_cases h0 : 0 ≤ pos <;> by_cases h1 : pos < a.maxRules - 1
+  · by_cases h2 : pos.toNat < a.core.rules.length <;> simp [h0, h1, h2, pyIndex_nonneg]
+  · simp [h0, h1]
+  · simp [h0, h1]
+  · simp [h0, h1]
+
+/-- Python's negative indices never come into play: the guard admits no negative position (what `pyIndex` would do with
+one — count from the end — is therefore unreachable; a guard loosened to `position < bound` alone would make
+`add_rule(position=-1)` overwrite the LAST slot, and the two theorems above would fail). -/
+theorem C07_negative_position_refused (a : AclObj) (r : Rule) (pos : Int) (h : pos < 0) :
+    a.addRule r pos = (a, .valueError) ∧ a.removeRule pos = (a, .valueError) ∧
+    pyIndex 24 (-1) = some 23 := by
+  have : ¬ 0 ≤ pos := by omega
+  refine ⟨by simp [AclObj.addRule, AclObj.inBound, this], by simp [AclObj.removeRule, AclObj.inBound, this], by decide⟩
+
 /-- name of the action-schema field that carries an `add_rule` parameter -/
 def actionField : String → String
   | "action" => "permission" | "protocol" => "protocol_name"
@@ -335,14 +372,14 @@ theorem C07_gen_request_layout :
 
 /-- the scenario key every loader block must read FIRST for a parameter, and the table it is looked up in -/
 def loaderPrimary : List (String × String × String) :=
-  [("action", "action", "ACLAction"), ("src_port", "src_port", "PORT_LOOKUP"), ("dst_port", "dst_port", "PORT_LOOKUP"),
-   ("protocol", "protocol", "PROTOCOL_LOOKUP"), ("src_ip_address", "src_ip", "-"),
-   ("src_wildcard_mask", "src_wildcard_mask", "-"), ("dst_ip_address", "dst_ip", "-"),
-   ("dst_wildcard_mask", "dst_wildcard_mask", "-")]
+  [("action", "action", "ACLAction"), ("dst_ip_address", "dst_ip", "-"), ("dst_port", "dst_port", "PORT_LOOKUP"),
+   ("dst_wildcard_mask", "dst_wildcard_mask", "-"), ("protocol", "protocol", "PROTOCOL_LOOKUP"),
+   ("src_ip_address", "src_ip", "-"), ("src_port", "src_port", "PORT_LOOKUP"),
+   ("src_wildcard_mask", "src_wildcard_mask", "-")]
 
 /-- **Scenario loading installs each rule into the list it is written under, field by field**: `Router.from_config` has
-one rule loop (into `router.acl`), `Firewall.from_config` six — the loop over `config['acl'][X]` adds to `firewall.X`, for
-exactly the six list fields of the class — all seven read the same keys for the same parameters (the keys the shipped
+one rule loop (into `router.acl`), `WirelessRouter.from_config` one (likewise), `Firewall.from_config` six — the loop over `config['acl'][X]` adds to `firewall.X`, for
+exactly the six list fields of the class — all eight read the same keys for the same parameters (the keys the shipped
 scenarios use first), and pass the mapping key as position. -/
 theorem C07_gen_loader_blocks :
     (∀ b, b ∈ loaderBlocks → b.2.2.2 = (loaderBlocks.head?.map (·.2.2.2)).getD []) ∧
@@ -351,6 +388,9 @@ theorem C07_gen_loader_blocks :
     (loaderBlocks.head?.map (fun b => (b.2.2.2.filter (·.2.1 == [])).map (fun k => (k.1, k.2.2)))) =
       some [("position", "<mapping key>")] ∧
     (loaderBlocks.filter (·.1 == "Router")).map (fun b => (b.2.1, b.2.2.1)) = [("router.acl", "acl.items()")] ∧
+    (loaderBlocks.filter (·.1 == "WirelessRouter")).map (fun b => (b.2.1, b.2.2.1)) =
+      [("router.acl", "config['acl'].items()")] ∧
+    loaderBlocks.length = 8 ∧
     (loaderBlocks.filter (·.1 == "Firewall")).map (fun b => (b.2.1, b.2.2.1)) =
       firewallLists.map (fun l => ("firewall." ++ l.1, "config['acl']['" ++ l.1 ++ "'].items()")) := by decide
 
